@@ -35,3 +35,12 @@ package fsmservice
 //@   assert@call Marshal[C08.save.round] loc(fsmInstances) == $fsmLoaded && loc(fsmInstances)[dkgRoundID] == dump && $loadStamp == $kvWrites
 //@   assert@call Set[C08.save.key] key == fsm.stateKey && content(value) == content(loc(fsmInstancesBz))
 //@   ensures[C08.save.once] $kvWrites <= old($kvWrites) + 1
+
+// an unknown round is created (and stored) only when it is really missing and creation was asked for
+//@ func (*FSM).GetFSMInstance
+//@   nosafety
+//@   requires fsm != nil
+//@   modifies *
+//@   modifies $fsmLoaded, $loadStamp, $kv, $kvHas, $kvWrites, $lastSetKey, $bufc
+//@   assert@call SaveFSM[C08.create.onlymissing] !loc(ok) && createIfMissing && dkgRoundID == arg0
+//@   ensures[C08.create.nowrite] !createIfMissing ==> $kvWrites == old($kvWrites)
